@@ -1406,7 +1406,15 @@ fn plan_lp(w: &World, knobs: &Knobs, actor: &mut Actor, l: &Ledger) -> Vec<(Tx, 
                 ..Default::default()
             };
             let la = liq_accounts(actor, &pi.keys, &pk, &fake);
-            let liq = liq_amount(rng, knobs.liq_bits);
+            let mut liq = liq_amount(rng, knobs.liq_bits);
+            // a ladder: the same liquidity as an abutting position (its upper bound is this lower bound, or the reverse), so
+            // that the shared tick carries gross 2L and net 0
+            if rng.chance(1, 4) {
+                let abut: Vec<u128> = decode::positions_of_pool(l, &pi.keys.whirlpool).into_iter().filter(|(_, q)| q.liquidity > 0 && (q.upper == lo || q.lower == hi)).map(|(_, q)| q.liquidity).collect();
+                if !abut.is_empty() {
+                    liq = abut[rng.idx(abut.len())];
+                }
+            }
             ixs.push((increase_ix(rng, &la, &pool, lo, hi, liq), "increase_liquidity"));
             if rng.chance(1, 3) {
                 // all in one atomic transaction
